@@ -146,3 +146,28 @@ pub fn resolve(req: &Value) -> Value {
     let any = !renamify_core::case_constraints::filter_compatible_styles(&m, &Style::all_styles()).is_empty();
     json!({"ok": {"style": format!("{:?}", res.style), "method": format!("{:?}", res.method), "compatible": compatible, "some_compatible": any}})
 }
+
+/// compound_scanner::find_enhanced_matches on raw content with the variant table the scanner builds
+/// (verif_hooks::variant_map_with_acronyms, default acronym set); "lines": optional additional candidate lines
+pub fn enhanced_matches(req: &Value) -> Value {
+    let content = crate::util::hex_field(req, "content");
+    let Some(search) = str_field(req, "search") else { return json!({"skip": "utf8"}) };
+    let Some(replace) = str_field(req, "replace") else { return json!({"skip": "utf8"}) };
+    let styles = styles_of(req);
+    let plurals = req["plurals"].as_bool().unwrap_or(true);
+    let set = renamify_core::acronym::get_default_acronym_set().clone();
+    let vm = renamify_core::scanner::verif_hooks::variant_map_with_acronyms(&search, &replace, Some(&styles), &set, plurals);
+    // find_enhanced_matches reads only the keys of the table
+    let mut vmap = renamify_core::scanner::VariantMap::new();
+    for (k, v) in &vm {
+        vmap.insert(k.clone(), None, v.clone());
+    }
+    let ex = renamify_core::compound_scanner::IdentifierExtractor::new(&styles);
+    let lines: Option<std::collections::BTreeSet<usize>> = req.get("lines").and_then(|a| a.as_array())
+        .map(|a| a.iter().filter_map(|x| x.as_u64().map(|n| n as usize)).collect());
+    let ms = renamify_core::compound_scanner::find_enhanced_matches(&content, "f", &search, &replace, &vmap, &styles, &ex, lines.as_ref());
+    let v: Vec<Value> = ms.iter()
+        .map(|m| json!([m.line, m.column, m.start, m.end, hex(m.variant.as_bytes()), hex(m.text.as_bytes())]))
+        .collect();
+    json!({"ok": v, "table": vm.iter().map(|(k, v)| json!([hex(k.as_bytes()), hex(v.as_bytes())])).collect::<Vec<_>>()})
+}
